@@ -155,6 +155,13 @@ class C19(Prop):
                    'replies": the model carries what the code does today as explicit outcomes and the run compares '
                    'them strictly, but the property does not constrain them',
                    'the decimal context is the default one (28 digits); int(r*COIN) uses the thread\'s ambient context',
+                   'compared (audit 3): for replies the exception CLASS (registered class / base class / the wrappers\' '
+                   'documented IndexError) and result-vs-raise; the code echoed inside the exception only when the '
+                   'server sent one — never the codes the library invents for replies without one; for request ids the order relation and the number of requests — not '
+                   'the values nor where the counter starts nor whether two proxies share a counter; cases outside '
+                   'the quantifier (non-reply bodies, non-integer codes, NaN/Infinity/null amounts, amounts outside '
+                   '0..21e14 or with sub-satoshi digits, non-hex hash strings, non-bytes arguments, no HTTP response) '
+                   'are tagged ood: a divergence there is a NOTE in the evidence, never a violation',
                    'typed Proxy methods: conversion of non-error results is modelled only for amounts (amountIn), '
                    'hashes (chain) and gettxout\'s IndexError on a null result; what e.g. getblock does with a null or '
                    'malformed result (AttributeError / binascii.Error of the conversion) is not an error reply and '
@@ -242,7 +249,68 @@ class C19(Prop):
                     time=rng.choice([0, 1231006505, 0xffffffff]), bits=rng.choice([0x1d00ffff, 0x207fffff, 0, 0xffffffff]),
                     nonce=rng.randrange(1 << 32))
 
+    # ---- which inputs lie outside the property's quantifier (kept: they exercise the model's explicit branches) -----
+    @staticmethod
+    def _exact_sat(text):
+        """exact satoshis denoted by a number text as a Fraction; None when it is no number or its exponent is so
+        large that the value cannot be materialised (far outside every domain anyway)"""
+        try:
+            d = Decimal(text)
+        except Exception:  # noqa: BLE001
+            return None
+        if not d.is_finite() or abs(d.as_tuple().exponent) > 100000:
+            return None
+        return Fraction(d) * COIN
+
+    @staticmethod
+    def _step_ood(kind, args):
+        if kind == 'in':
+            text = args[1]
+            if text in ('NaN', 'Infinity', '-Infinity', 'null', 'true', 'false'):
+                return True                       # not an amount at all
+            exact = C19._exact_sat(text)
+            if exact is None:
+                return True
+            # the statement: amounts in the money range, texts denoting whole satoshis
+            return not (exact.denominator == 1 and 0 <= exact <= MAX_MONEY)
+        if kind == 'out':
+            return not (0 <= int(args[1]) <= MAX_MONEY)
+        if kind in ('lx', 'unhex', 'chain'):
+            h = args[-1]
+            return not (len(h) % 2 == 0 and all(ch in '0123456789abcdefABCDEF' for ch in h))
+        if kind == 'reply':
+            m, spec = args
+            if spec == 'none' or spec.startswith(('nonobj=', 'nonutf8=')):
+                return True                       # no reply / not a reply object: not an "error reply"
+            if spec.startswith('obj:dict='):
+                code = spec[len('obj:dict='):].rsplit(':', 1)[0]
+                if code.startswith('dec=') or code in ('true', 'false', 'null', 'str', 'nan', 'inf', '-inf'):
+                    return True                   # JSON-RPC codes are integers
+            if m == 'gettxout' and spec.endswith(':v=@null') and not spec.startswith('obj:dict=') \
+                    and not spec.startswith('obj:other='):
+                return True                       # gettxout's own IndexError for "not found"
+            return False
+        if kind == 'nonbytes':
+            return True
+        return False
+
+    def _is_ood(self, c):
+        op, a = c['op'], c['args']
+        if op == 'c19.seq':
+            # a history is outside the quantifier only if every step is; otherwise its in-domain steps are compared
+            # (after whatever the other steps left behind) and the others are skipped step by step in `agree`
+            steps = [st.split('|') for st in a[0].split(';') if st != 'flush']
+            return all(self._step_ood(f[1], f[2:]) for f in steps)
+        return self._step_ood({'c19.amountIn': 'in', 'c19.amountOut': 'out', 'c19.lx': 'lx', 'c19.unhex': 'unhex',
+                               'c19.chain': 'chain', 'c19.reply': 'reply', 'c19.nonbytes': 'nonbytes'}.get(op, ''), a)
+
     def generate(self, rng, tier, shard, nshards):
+        for c in self._generate(rng, tier, shard, nshards):
+            if self._is_ood(c):
+                c['ood'] = True
+            yield c
+
+    def _generate(self, rng, tier, shard, nshards):
         big = tier == 'thorough'
         i = 0
 
@@ -657,7 +725,10 @@ class C19(Prop):
         try:
             r = call()
         except self.R.JSONRPCError as e:
-            code = e.error['code']
+            try:
+                code = e.error['code']       # shown in replays only; not compared (see _canon_step)
+            except Exception:  # noqa: BLE001
+                code = '?'
             if isinstance(code, bool):
                 cs = 'true' if code else 'false'
             elif isinstance(code, int):
@@ -679,8 +750,10 @@ class C19(Prop):
         p, conn = self.proxy()
         for t in toks:
             if t == 'batch':
-                conn.script(b'[]')
-                p._batch([{'version': '1.1', 'method': 'm', 'params': [], 'id': 7}])
+                batch = getattr(p, '_batch', None)        # private: exercised when it exists, otherwise skipped
+                if batch is not None:
+                    conn.script(b'[]')
+                    batch([{'version': '1.1', 'method': 'm', 'params': [], 'id': 7}])
                 continue
             if t == 'reqfail':
                 conn.fail_next_request = TimeoutError('scripted')
@@ -690,7 +763,7 @@ class C19(Prop):
                              'connfail': ConnectionResetError('scripted')}[t])
             try:
                 p.call('m', len(conn.requests))
-            except (self.R.JSONRPCError, UnicodeDecodeError, AttributeError, ConnectionResetError, TimeoutError):
+            except Exception:  # noqa: BLE001 - whatever becomes of the call is not what this op observes
                 pass
         out = []
         for (_, _, body, _) in conn.requests:
@@ -821,11 +894,71 @@ class C19(Prop):
             return 'D19-rpc-unhashable-error-code-typeerror'
         return None
 
+    # ---- canonical forms: only what the statement constrains ----------------------------------------------------
+    @staticmethod
+    def _server_sent_code(spec):
+        """does the scripted reply carry a code of its own?  (otherwise the code inside the exception is one the
+        library invents — -342 … -345 today — which the statement does not mention)"""
+        if not spec.startswith('obj:dict='):
+            return False
+        code = spec[len('obj:dict='):].rsplit(':', 1)[0]
+        return code not in ('absent', 'empty')
+
+    @classmethod
+    def _step_same(cls, io, mo, spec=None):
+        """compare one answer.  `raise:<Class>:<code>`: the statement constrains the CLASS raised for the code; the
+        code echoed inside the exception is compared only when the server sent one and it could be read (`?`)."""
+        if not (io.startswith('raise:') and mo.startswith('raise:')):
+            return io == mo
+        fa, fb = io.split(':'), mo.split(':')
+        if len(fa) != 3 or len(fb) != 3 or fa[1] != fb[1]:
+            return False
+        if spec is not None and not cls._server_sent_code(spec):
+            return fb[2] in ('-342', '-343', '-344', '-345')      # the model's own internal code; impl's not compared
+        return fa[2] == fb[2] or fa[2] == '?'
+
+    @staticmethod
+    def _ids_ok(impl_ids, model_ids):
+        """the statement: ids strictly increase over the life of a proxy (hence never reused).  Compared: the order
+        relation and the number of requests — not the values, not where the counter starts."""
+        a = [x for x in impl_ids.split(',') if x != '']
+        b = [x for x in model_ids.split(',') if x != '']
+        if len(a) != len(b) or b != [str(i + 1) for i in range(len(b))]:
+            return False                      # (the model itself counts 1, 2, 3, …: Model.Rpc.idsSent)
+        try:
+            v = [int(x) for x in a]
+        except ValueError:
+            return False
+        return all(v[i] < v[i + 1] for i in range(len(v) - 1))
+
     def agree(self, c, io, mo):
+        if c['op'] == 'c19.ids':
+            return self._ids_ok(io, mo)
+        if c['op'] == 'c19.reply':
+            return self._step_same(io, mo, c['args'][1])
         if c['op'] == 'c19.seq':
             # the model's answers are the stateless ones: every step must answer as it would on a fresh proxy in a
-            # fresh process, and each proxy must count its own requests 1, 2, 3, …
-            return io == mo
+            # fresh process, and each proxy's ids must strictly increase
+            try:
+                io_steps, io0, io1 = io.split('#')
+                mo_steps, mo0, mo1 = mo.split('#')
+            except ValueError:
+                return False
+            a, b = io_steps.split(';'), mo_steps.split(';')
+            steps = c['args'][0].split(';')
+            if not (len(a) == len(b) == len(steps)):
+                return False
+            for x, y, st in zip(a, b, steps):
+                f = st.split('|')
+                if st == 'flush':
+                    if x != y:
+                        return False
+                    continue
+                if self._step_ood(f[1], f[2:]) and not c.get('ood'):
+                    continue                  # an event outside the quantifier: there to leave state behind
+                if not self._step_same(x, y, f[3] if f[1] == 'reply' else None):
+                    return False
+            return self._ids_ok(io0, mo0) and self._ids_ok(io1, mo1)
         if c['op'] == 'c19.amountOut':
             # Python's exact reading of the emitted text, the model's (Model.Rpc.satoshisDenoted), and the amount
             return io == mo == c['args'][1]
@@ -844,10 +977,9 @@ class C19(Prop):
             if mo != self._ref_amount(text):
                 return False
             # (2) the code under test: strict inside the domain (whole satoshis below the context precision) …
-            try:
-                exact = Fraction(Decimal(text)) * COIN
-            except Exception:  # noqa: BLE001
-                return False
+            exact = self._exact_sat(text)
+            if exact is None:
+                return io.startswith('err:') == mo.startswith('err:')
             if exact.denominator == 1 and abs(exact) < 10 ** 28:
                 return False
             # … outside it the property is silent: an integer next to the exact value, or refused, is accepted,
